@@ -261,3 +261,4 @@ _gen_c11 = generate
 
 def generate(ctx):   # + Relic.Generated.CompressHttp (Relic.Props.C11.generated_buffering_eq)
     return _gen_c11(ctx) + _chttp.generate(ctx)
+import cosign as _thin; _thin.wrap(globals(), "C11")  # COSIGN / CAT ops (checklib/models/cosign.py)
